@@ -48,12 +48,15 @@ type gProp struct {
 	Name       string
 	Ty         gTy
 	Filterable bool
+	Desc       string   // description line (printed as a leading comment)
+	Attrs      []string // extra attribute lines, e.g. rules.pattern = "..."
 }
 
 type gSchema struct {
 	Name  string
 	Kind  string // object oneof enum
 	Props []gProp
+	Desc  []string
 }
 
 type gMethod struct {
@@ -112,9 +115,46 @@ var nouns = []string{"Thing", "Widget", "Order", "Invoice", "Gadget", "Parcel", 
 var pkgNames = []string{"foo.v1", "bar.v2", "acme.billing.v1", "shop.v3", "zed.v10"}
 
 type gctx struct {
-	r       *vh.Rand
-	schemas []gSchema
-	awkward bool
+	r        *vh.Rand
+	schemas  []gSchema
+	awkward  bool
+	decorate bool // descriptions and validation rules with characters that need escaping (C05)
+}
+
+var descPool = []string{"Plain words.", "With \"double quotes\" inside", "back\\slash and 'single'", "unicode é ü 漢字 😀", "slashes // and /* stars */", "colon: semi; brace { } [ ]",
+	"ends with backslash \\", "percent %s %d and tab-free", "a = b, c <d> &e", "x"}
+var patternPool = []string{`^[a-z]+$`, `^[a-z\"\\\\]+$`, `^é+$`, `^'x'$`, `a/b`, `^[0-9]{3}-[0-9]{4}$`, `^\\\\d+$`}
+
+func (g *gctx) decorateProp(p *gProp) {
+	if !g.decorate {
+		return
+	}
+	if g.r.Chance(40) {
+		p.Desc = vh.Pick(g.r, descPool)
+	}
+	switch p.Ty.Kind {
+	case "string":
+		if g.r.Chance(60) {
+			p.Attrs = append(p.Attrs, fmt.Sprintf("rules.pattern = \"%s\"", vh.Pick(g.r, patternPool)))
+		}
+		if g.r.Chance(40) {
+			p.Attrs = append(p.Attrs, fmt.Sprintf("rules.minLength = %d", g.r.Range(0, 5)))
+		}
+		if g.r.Chance(30) {
+			p.Attrs = append(p.Attrs, fmt.Sprintf("rules.maxLength = %d", g.r.Range(5, 300)))
+		}
+	case "integer":
+		if g.r.Chance(50) {
+			p.Attrs = append(p.Attrs, fmt.Sprintf("rules.minimum = %d", g.r.Range(0, 100)))
+		}
+		if g.r.Chance(50) {
+			p.Attrs = append(p.Attrs, fmt.Sprintf("rules.maximum = %s", vh.Pick(g.r, []string{"100", "2147483647", "4294967295"})))
+		}
+	case "array":
+		if g.r.Chance(50) {
+			p.Attrs = append(p.Attrs, fmt.Sprintf("rules.minItems = %d", g.r.Range(0, 3)))
+		}
+	}
 }
 
 func (g *gctx) propNames(n int) []string {
@@ -183,13 +223,17 @@ func (g *gctx) props(n int) []gProp {
 	out := make([]gProp, 0, len(names))
 	for _, nm := range names {
 		t := g.anyTy(0)
-		out = append(out, gProp{Name: nm, Ty: t, Filterable: t.Kind == "bool"})
+		pr := gProp{Name: nm, Ty: t, Filterable: t.Kind == "bool"}
+		g.decorateProp(&pr)
+		out = append(out, pr)
 	}
 	return out
 }
 
-func genPackage(r *vh.Rand, awkward bool) *gPackage {
-	g := &gctx{r: r, awkward: awkward}
+func genPackage(r *vh.Rand, awkward bool) *gPackage { return genPackageOpt(r, awkward, false) }
+
+func genPackageOpt(r *vh.Rand, awkward, decorate bool) *gPackage {
+	g := &gctx{r: r, awkward: awkward, decorate: decorate}
 	p := &gPackage{Pkg: vh.Pick(r, pkgNames), Awkward: awkward}
 	// declare schema names first so that references can be cyclic
 	n := r.Range(2, 6)
@@ -202,6 +246,12 @@ func genPackage(r *vh.Rand, awkward bool) *gPackage {
 	}
 	for i := range g.schemas {
 		s := &g.schemas[i]
+		if decorate && r.Chance(50) {
+			s.Desc = append(s.Desc, vh.Pick(r, descPool))
+			if r.Chance(30) {
+				s.Desc = append(s.Desc, vh.Pick(r, descPool))
+			}
+		}
 		switch s.Kind {
 		case "object":
 			s.Props = g.props(r.Range(1, 5))
@@ -308,10 +358,29 @@ func (g *gctx) method(noun string, k int) gMethod {
 // ---------------------------------------------------------------- text
 
 func propLine(ind, kw string, p gProp) string {
+	var body []string
+	if p.Desc != "" {
+		body = append(body, "| "+p.Desc)
+	}
 	if p.Filterable {
-		return fmt.Sprintf("%s%s %s %s {\n%s\tlistRules.filtering.filterable = true\n%s}\n", ind, kw, p.Name, p.Ty.j5s(), ind, ind)
+		body = append(body, "listRules.filtering.filterable = true")
+	}
+	body = append(body, p.Attrs...)
+	if len(body) > 0 {
+		return fmt.Sprintf("%s%s %s %s {\n%s\t%s\n%s}\n", ind, kw, p.Name, p.Ty.j5s(), ind, strings.Join(body, "\n"+ind+"\t"), ind)
 	}
 	return fmt.Sprintf("%s%s %s %s\n", ind, kw, p.Name, p.Ty.j5s())
+}
+
+func descLines(ind string, desc []string) string {
+	var sb strings.Builder
+	for _, d := range desc {
+		sb.WriteString(ind + "| " + d + "\n")
+	}
+	if len(desc) > 0 {
+		sb.WriteString("\n")
+	}
+	return sb.String()
 }
 
 func (p *gPackage) text() string {
@@ -320,19 +389,19 @@ func (p *gPackage) text() string {
 	for _, s := range p.Schemas {
 		switch s.Kind {
 		case "object":
-			fmt.Fprintf(&sb, "object %s {\n", s.Name)
+			fmt.Fprintf(&sb, "object %s {\n%s", s.Name, descLines("\t", s.Desc))
 			for _, pr := range s.Props {
 				sb.WriteString(propLine("\t", "field", pr))
 			}
 			sb.WriteString("}\n\n")
 		case "oneof":
-			fmt.Fprintf(&sb, "oneof %s {\n", s.Name)
+			fmt.Fprintf(&sb, "oneof %s {\n%s", s.Name, descLines("\t", s.Desc))
 			for _, pr := range s.Props {
 				sb.WriteString(propLine("\t", "option", pr))
 			}
 			sb.WriteString("}\n\n")
 		case "enum":
-			fmt.Fprintf(&sb, "enum %s {\n\toption ALPHA\n\toption BETA\n}\n\n", s.Name)
+			fmt.Fprintf(&sb, "enum %s {\n%s\toption ALPHA\n\toption BETA\n}\n\n", s.Name, descLines("\t", s.Desc))
 		}
 	}
 	for _, sv := range p.Services {
